@@ -155,6 +155,17 @@ def sliceTo (d : Bytes) (b : Int) : V Bytes :=
 /-- `len(d)` -/
 @[inline] def len (d : Bytes) : Int := d.length
 
+/-- Comparisons of ints as Boolean functions (so that a condition is a plain function application whose arguments
+`simp` can rewrite, instead of a `decide` carrying a `Decidable` instance that mentions the unreduced operands). -/
+@[inline] def ltI (a b : Int) : Bool := decide (a < b)
+@[inline] def leI (a b : Int) : Bool := decide (a ≤ b)
+@[inline] def gtI (a b : Int) : Bool := decide (a > b)
+@[inline] def geI (a b : Int) : Bool := decide (a ≥ b)
+@[simp] theorem ltI_eq (a b : Int) : ltI a b = decide (a < b) := rfl
+@[simp] theorem leI_eq (a b : Int) : leI a b = decide (a ≤ b) := rfl
+@[simp] theorem gtI_eq (a b : Int) : gtI a b = decide (b < a) := rfl
+@[simp] theorem geI_eq (a b : Int) : geI a b = decide (b ≤ a) := rfl
+
 /-- `a | b` on ints the translator has shown non-negative -/
 @[inline] def orI (a b : Int) : Int := Int.ofNat (a.toNat ||| b.toNat)
 
